@@ -121,7 +121,8 @@ theorem sweep_blind_witness :
 method of the current source, pinned. `GetHash`/`GetAllHash`/`GetExpiration` have two; every other
 locking method, `CleanupExpired` included, has exactly one. -/
 theorem section_counts :
-    allSkeletons.map sectionCount = [1, 1, 1, 1, 0, 0, 1, 1, 1, 2, 2, 1, 0, 1, 1, 2, 1, 1, 1, 0] := by
+    allSkeletons.map sectionCount =
+      [1, 1, 1, 1, 0, 0, 1, 1, 1, 2, 2, 1, 0, 1, 1, 2, 1, 1, 1, 0, 1, 1, 1, 1, 1, 1, 1, 1, 1] := by
   decide +kernel
 
 /-- Every method is one atomic step: one critical section, or two where the second only deletes
